@@ -5,7 +5,7 @@ use std::cell::RefCell;
 use std::collections::BTreeMap;
 use std::path::PathBuf;
 use std::sync::atomic::{AtomicU64, Ordering};
-use std::sync::Mutex;
+use std::sync::{Mutex, RwLock};
 use std::time::Instant;
 
 #[derive(Clone, Copy, Debug, PartialEq, Eq)]
@@ -120,7 +120,7 @@ pub struct Report {
     pub extra: Mutex<Map<String, Value>>,
     pub assumptions: Mutex<Vec<String>>,
     /// signature -> (first violation seen, count)
-    pub violations: Mutex<BTreeMap<String, (Violation, u64)>>,
+    pub violations: RwLock<BTreeMap<String, (Violation, AtomicU64)>>,
     start: Instant,
 }
 
@@ -140,7 +140,7 @@ impl Report {
             exhaustive: Mutex::new(true),
             extra: Mutex::new(Map::new()),
             assumptions: Mutex::new(vec![]),
-            violations: Mutex::new(BTreeMap::new()),
+            violations: RwLock::new(BTreeMap::new()),
             start: Instant::now(),
         }
     }
@@ -184,28 +184,39 @@ impl Report {
         *self.exhaustive.lock().unwrap() = false;
     }
     pub fn violation(&self, sig: &str, what: String, replay: Value) {
-        let mut v = self.violations.lock().unwrap();
-        let e = v.entry(sig.to_string()).or_insert_with(|| {
-            (
-                Violation {
-                    sig: sig.to_string(),
-                    what,
-                    replay,
-                },
-                0,
-            )
-        });
-        e.1 += 1;
+        self.violation_lazy(sig, || (what, replay));
+    }
+    /// Record a violation; the description and replay are only built for the first case of a
+    /// signature (later cases just count), so a mass failure stays cheap.
+    pub fn violation_lazy(&self, sig: &str, make: impl FnOnce() -> (String, Value)) {
+        {
+            let r = self.violations.read().unwrap();
+            if let Some(e) = r.get(sig) {
+                e.1.fetch_add(1, Ordering::Relaxed);
+                return;
+            }
+        }
+        let mut w = self.violations.write().unwrap();
+        if let Some(e) = w.get(sig) {
+            e.1.fetch_add(1, Ordering::Relaxed);
+            return;
+        }
+        let (what, replay) = make();
+        w.insert(sig.to_string(), (Violation { sig: sig.to_string(), what, replay }, AtomicU64::new(1)));
+    }
+    /// true once this signature has been recorded (hot loops use it to skip formatting)
+    pub fn known_sig(&self, sig: &str) -> bool {
+        self.violations.read().unwrap().contains_key(sig)
     }
     pub fn violation_count(&self) -> usize {
-        self.violations.lock().unwrap().len()
+        self.violations.read().unwrap().len()
     }
 
     /// Write evidence, print verdict lines, return the process exit code.
     pub fn finish(self) -> i32 {
         let root = verif_root();
         let known = load_known(&root, &self.id);
-        let viols = self.violations.into_inner().unwrap();
+        let viols: BTreeMap<String, (Violation, u64)> = self.violations.into_inner().unwrap().into_iter().map(|(k, (v, c))| (k, (v, c.into_inner()))).collect();
         let mut unknown = 0u64;
         let mut unknown_cases = 0u64;
         let mut known_hit = vec![];
